@@ -144,6 +144,26 @@ def native_check(kind, n, env=None, seed=0):
     return fails
 
 
+def nll_space_order(kind, n, seed=0):
+    """NLL uses `space` for the normalisation only: any enumeration of the basis states gives the same number."""
+    from qucumber.utils import training_statistics as ts
+    rng = np.random.default_rng(seed)
+    st = C.make_state(kind, n, n + 1, 2)
+    C.randomize(st, rng, 0.8)
+    space = st.generate_hilbert_space(n)
+    strings = ["".join(s) for s in itertools.product("XYZ", repeat=n)]
+    M = 6
+    samples = torch.tensor(rng.integers(0, 2, size=(M, n)), dtype=torch.double)
+    sb = np.array([list(strings[i]) for i in rng.integers(0, len(strings), size=M)]) if kind != "positive" else None
+    ref = ts.NLL(st, samples, space, sample_bases=sb)
+    f = []
+    for name, order in (("reversed", list(range(2 ** n))[::-1]), ("shuffled", list(rng.permutation(2 ** n))), ("bit-reversed", [int(format(k, "0%db" % n)[::-1], 2) for k in range(2 ** n)])):
+        got = ts.NLL(st, samples, space[order].clone(), sample_bases=sb)
+        if abs(got - ref) > 1e-9 * (1 + abs(ref)):
+            f.append(("NLL with the basis states of `space` enumerated in another order (%s) differs: %r vs %r" % (name, got, ref), None))
+    return f
+
+
 def nll_every_basis(kind, n, seed=0):
     """NLL on a data set holding every basis string of an n-site chain (3^n bases, one or two samples each, shuffled),
     against minus the mean log Born probability computed per sample from the dense rotation."""
@@ -182,6 +202,10 @@ def replay(cfg, env, short):
     kinds = ["positive", "complex"] if cfg.get("flavour") == "pure" else ["mixed"] if cfg.get("flavour") == "mixed" else ["complex", "mixed"]
     fails = []
     for kind in kinds:
+        fails = nll_space_order(kind, 3, 0)
+        if fails:
+            return {"reproduced": True, "failed_clauses": [(a, str(b)[:200]) for a, b in fails[:4]], "cfg": cfg}
+    for kind in kinds:
         for s in range(2):
             fails = native_check(kind, cfg.get("n", 2), env if s == 0 else None, s)
             if fails:
@@ -199,6 +223,11 @@ def bounded(tier, seed):
             n += 1
             if f:
                 bad.append((kind, nv, f[:3]))
+    for kind in ("positive", "complex", "mixed"):
+        f = nll_space_order(kind, 3, seed)
+        n += 1
+        if f:
+            bad.append((kind, 3, f[:2]))
     for kind, nn in ((("complex", 6),) if tier == "quick" else (("complex", 6), ("mixed", 6), ("complex", 7))):
         f = nll_every_basis(kind, nn, seed)
         n += 1
